@@ -213,6 +213,27 @@ def check(ctx):
                     and len(extra) >= 1 and (deg is None or
                                              tm.is_const(deg, False)):
                 axis_idx = unit(av)
+                # the callee must use the angle whenever one is passed — a
+                # heading of exactly 0 included (`if angle:` would treat it
+                # as "no angle" and rotate by |axis| = 1 rad instead)
+                tgt = exps[0].data.get("target")
+                if tgt is not None and len(tgt.params) >= 2:
+                    ap = tm.param(tgt.params[1])
+                    rr = Interp(prog).run(tgt)
+                    truthy = any(a is ap for e_ in rr.events
+                                 for a in tm.atoms(e_.live)) or any(
+                        a is ap for x in rr.ret.walk() if x.op == "ite"
+                        for a in tm.atoms(x.args[0]))
+                    ctx.ob("C14.2", tgt, not truthy,
+                           f"{tgt.name}: the separate angle argument is used "
+                           f"whenever it is given (tested against None)"
+                           if not truthy else
+                           f"{tgt.name}: whether an angle was passed is "
+                           f"decided by its truth value: a planar pose with "
+                           f"heading exactly 0 is rebuilt with the rotation "
+                           f"vector `axis` itself (1 rad about the normal) — "
+                           f"the pose is not left unchanged",
+                           key=f"C14.2:{member}:angle-given")
                 angle = exps[0].data["args"][1] if len(
                     exps[0].data["args"]) > 1 else dict(
                     exps[0].data["kwargs"]).get("angle")
